@@ -7,6 +7,9 @@
 //! Honours VERIF_SEED (default 0). Exit codes: 0 held / 1 violation / 2 infrastructure problem.
 
 mod build;
+mod c09;
+mod c17;
+mod probes;
 mod evidence;
 mod fixed;
 mod props;
